@@ -41,6 +41,10 @@ def run_cases(cases, case_timeout=6):
                 # EnforceChanges flips its own enforced flag when re-initialised: attribute tables are static
                 skipped["attr-mutation"] = skipped.get("attr-mutation", 0) + 1
                 r["no_model"] = True
+            if "RecursionError" in r["info"]["outcome"]:
+                # the interpreter's recursion limit is not part of the model: such a run is judged by the oracle only
+                skipped["recursion-limit"] = skipped.get("recursion-limit", 0) + 1
+                r["no_model"] = True
             r["case"] = case
             results.append(r)
     finally:
